@@ -189,7 +189,17 @@ func c01Dispatch(c *Ctx, r *Report, p *Prov, zoneKeys []string, rule string) {
 // c01Explain: a command wrapped in explain ({explain: {find: ..., filter: ...}}) carries the
 // same query-bearing members one level down: the command walker must walk cmd[explain]
 // with itself.
+// commandWrappers: members of a command document whose value is a command document itself
+// (explain; the representative query of the query-settings commands, hunt 4 F-59)
+var commandWrappers = []string{"explain", "setQuerySettings", "removeQuerySettings"}
+
 func c01Explain(c *Ctx, r *Report, p *Prov, rule string) {
+	for _, w := range commandWrappers {
+		c01Wrapper(c, r, p, rule, w)
+	}
+}
+
+func c01Wrapper(c *Ctx, r *Report, p *Prov, rule string, wrapper string) {
 	cmdFn := p.cmdWalker()
 	if cmdFn == nil {
 		return
@@ -198,7 +208,7 @@ func c01Explain(c *Ctx, r *Report, p *Prov, rule string) {
 	iterSite := false
 	for _, call := range callsIn(cmdFn, func(k string, cc *ssa.Call) bool { return cc.Call.StaticCallee() == cmdFn }) {
 		if rv, kv, ok := getKeyValueOf(call.Call.Args[0]); ok && peel(rv) == ssa.Value(cmdFn.Params[0]) {
-			if s, isC := constString(kv); isC && s == "explain" {
+			if s, isC := constString(kv); isC && s == wrapper {
 				site = call
 			}
 		}
@@ -209,7 +219,7 @@ func c01Explain(c *Ctx, r *Report, p *Prov, rule string) {
 					if name, okN := elemFieldName(fa); okN && name == "Key" {
 						for _, ld := range *fa.Referrers() {
 							if lv, isV := ld.(ssa.Value); isV {
-								if ks := p.keysAt(lv, call.Block()); len(ks) == 1 && ks[0] == "explain" {
+								if ks := p.keysAt(lv, call.Block()); len(ks) == 1 && ks[0] == wrapper {
 									site, iterSite = call, true
 								}
 							}
@@ -219,9 +229,9 @@ func c01Explain(c *Ctx, r *Report, p *Prov, rule string) {
 			}
 		}
 	}
-	construct := cmdFn.Name() + ":zone(explain)"
+	construct := cmdFn.Name() + ":zone(" + wrapper + ")"
 	if site == nil {
-		r.Bad(rule, construct, c.Pos(cmdFn.Pos()), "a command wrapped in explain is not walked: the command walker never applies itself to cmd[explain], so every literal of an explained find / aggregate / update is emitted unredacted")
+		r.Bad(rule, construct, c.Pos(cmdFn.Pos()), "a command wrapped in "+wrapper+" is not walked: the command walker never applies itself to cmd["+wrapper+"], so every literal of the wrapped find / aggregate / update is emitted unredacted")
 		return
 	}
 	var bad []string
@@ -235,7 +245,7 @@ func c01Explain(c *Ctx, r *Report, p *Prov, rule string) {
 			bad = append(bad, a.String())
 		}
 	}
-	r.Check(len(bad) == 0, rule, construct, c.InstrPos(site), "cmd[explain] is walked by the command walker itself, under lookup/type guards only", fmt.Sprintf("the explain wrapper is walked only under %v", bad))
+	r.Check(len(bad) == 0, rule, construct, c.InstrPos(site), "cmd["+wrapper+"] is walked by the command walker itself, under lookup/type guards only", fmt.Sprintf("the "+wrapper+" wrapper is walked only under %v", bad))
 }
 
 // zoneSet: one rewrite `Set(cmd, K, walker(Get(cmd, K)))` of the command walker, found
